@@ -32,6 +32,18 @@ CHECKS.update({
    "sequential consistency; tokio Notify/channel operations atomic; DashMap whole-map operations atomic w.r.t. guarded accesses", "DESIGN.md section 5 C06"),
 })
 
+CHECKS.update({
+ "C05": ("vsched", "stateless model checking: exhaustive/bounded DFS at lock-operation granularity of link/unlink/relink vs. the real exit path, plus task-level DFS over real supervision trees with structural invariants evaluated at every scheduling step",
+   "Core: link, relink, unlink, a second link and a child exit race the real exit path on real cells (complete tree for two tasks, deviation-bounded for three). Live: chain/fan/bushy trees with Send and thread-local children, one node exits by stop/kill/Err/panic while another task spawns under it, links into it, relinks or unlinks a child; invariants (one supervisor, mirrored child set, stopped actors have neither) at every step, subtree death and no-running-orphan at quiescence.",
+   "sequential consistency; trees up to 5 nodes / depth 3; invariants are evaluated at step boundaries only", "DESIGN.md section 5 C05"),
+ "C10": ("vsched", "stateless model checking of the real registry: exhaustive DFS with sleep sets on real cells + deviation-bounded DFS on real spawns/exits/respawns",
+   "Concurrent registrations of one name, lookups, the holder's exit path and respawns with a decision point before every DashMap, lock and atomic operation; oracle: one holder at a time, losers fail with ActorAlreadyRegistered leaving nothing, lookups return only a current holder and never one whose wait() returned, the name is reusable after wait().",
+   "sequential consistency; DashMap accesses atomic (shards held across points are waited for); pid registry checked in the cluster harness", "DESIGN.md section 5 C10"),
+ "C11": ("vsched", "stateless model checking of the real pg module: exhaustive DFS with sleep sets (join vs exit) + deviation-bounded DFS (3 tasks), snapshot + port-reading oracle",
+   "2-3 tasks run the real join/leave/monitor/demonitor/query functions and the real exit cleanup on shared groups and scopes; a decision point before every DashMap, lock, atomic and supervision-port operation; oracle: stopped actors are nowhere, scope index / reverse index / listener tables agree with the forward map, all six query functions agree, each get_members result is explained by an instant of its call, monitors saw every effective change with the right payload and nobody else saw anything.",
+   "sequential consistency; DashMap iter() modelled as an atomic snapshot; redundant notifications for no-op calls are not flagged; delivery order between different calls is not demanded", "DESIGN.md section 5 C11"),
+})
+
 NOT_YET = {}
 
 def main():
